@@ -31,6 +31,7 @@ type ClockFn = Box<dyn FnMut(SystemTime) -> SystemTime>;
 type ReadFn = Box<dyn FnMut(&std::fs::File, usize, u64) -> std::io::Result<usize>>;
 
 thread_local! {
+    static CHUNKER_BYTES: std::cell::Cell<u64> = const { std::cell::Cell::new(0) };
     static SCHED: RefCell<Option<Arc<dyn Sched>>> = const { RefCell::new(None) };
     static CLOCK: RefCell<Option<ClockFn>> = const { RefCell::new(None) };
     static READ: RefCell<Option<ReadFn>> = const { RefCell::new(None) };
@@ -160,4 +161,20 @@ impl<T> Drop for MutexGuard<'_, T> {
             s.released(id);
         }
     }
+}
+
+/// Counts the bytes `chunker::Writer::write` reported as accepted on the calling thread, so that a
+/// simulator can tell bytes that never reached the chunk writer (still inside a compressor in
+/// front of it) from bytes the chunk writer was given but did not hand over.
+pub fn wrote_to_chunker(n: usize) {
+    CHUNKER_BYTES.with(|c| c.set(c.get() + n as u64));
+}
+
+/// Bytes counted by [`wrote_to_chunker`] on this thread since the last [`reset_chunker_bytes`].
+pub fn chunker_bytes() -> u64 {
+    CHUNKER_BYTES.with(|c| c.get())
+}
+
+pub fn reset_chunker_bytes() {
+    CHUNKER_BYTES.with(|c| c.set(0));
 }
